@@ -291,7 +291,7 @@ func TestVerifC04(t *testing.T) {
 	rapid.Check(t, func(rt *rapid.T) {
 		c := genC04(rt)
 		v, nt, inc := runC04(c)
-		if inc {
+		if inc || (v != nil && transportNoise(v.Message)) {
 			col.Inconclusive()
 			return
 		}
